@@ -988,11 +988,22 @@ class GCodeBuilder(GCodeCore):
             ParamsDict: The updated movement parameters
         """
 
-        if params.get("F") is not None:
-            self.state._set_feed_rate(params.get("F"))
+        feed_rate = params.get("F")
+        tool_power = params.get("S")
 
-        if params.get("S") is not None:
-            self.state._set_tool_power(params.get("S"))
+        # Validate everything before changing anything
+
+        if feed_rate is not None:
+            self.state._validate_feed_rate(feed_rate)
+
+        if tool_power is not None:
+            self.state._validate_tool_power(tool_power)
+
+        if feed_rate is not None:
+            self.state._set_feed_rate(feed_rate)
+
+        if tool_power is not None:
+            self.state._set_tool_power(tool_power)
 
     def _update_axes(self, axes: Point, params: ParamsDict) -> None:
         """Update the internal state after a movement.
